@@ -264,6 +264,7 @@ N, B = "Nat", "Bool"
 
 
 FAILED_ATOMS = []
+CUR_SRC = [None]
 
 
 def committed_def(name):
@@ -291,8 +292,13 @@ def atoms_text():
         committed text (and is listed in the evidence) while all the others are still regenerated"""
         try:
             e = thunk()
-            fv = R.free_vars(e)
             names = [p for p, _ in params]
+            # a name that is not a parameter may be a `const` of the source file the expression comes from
+            for v in sorted(R.free_vars(e) - set(names)):
+                mc = re.search(r"\bconst\s+" + re.escape(v) + r"\s*:\s*[^=;]+=\s*([^;]+);", CUR_SRC[0] or "")
+                if mc:
+                    e = R.subst(e, v, R.parse_expr(mc.group(1)))
+            fv = R.free_vars(e)
             if not fv <= set(names):
                 raise R.Unsupported(f"{name}: free variables {sorted(fv - set(names))} are not parameters")
             out.append(R.typed_def(name, params, ret, e))
@@ -304,6 +310,7 @@ def atoms_text():
             out.append(old)
 
     def region(*a, **k):
+        CUR_SRC[0] = a[0] if a else None
         try:
             return R.fn_region(*a, **k)
         except Exception:                           # noqa
@@ -364,6 +371,15 @@ def atoms_text():
     emit("bs_whole", [("removed_end", N), ("next_start", N)], B, lambda: (R.cond_over(b, {"removed_end", "next_start"})))
     emit("bs_part_len", [("next_start", N), ("removed_start", N)], N, lambda: (R.let_expr(b, "len")))
     emit("bs_skip", [("len", N)], B, lambda: (R.cond_over(b, {"len"})))
+    # where the sweep stops when no further entry follows on the chromosome (`let next_start = ….unwrap_or(<bound>)`)
+    def sweep_bound(body):
+        m = re.search(r"let\s+next_start\s*=\s*[^;]*?\.unwrap_or\(([^;]+)\)\s*;", body or "")
+        if not m:
+            raise R.Unsupported("let next_start = ….unwrap_or(…) not found")
+        return R.parse_expr(m.group(1))
+    emit("bs_final_bound", [("chrom_length", N)], N, lambda: (sweep_bound(b)))
+    bz_body = region(read("bigtools/src/bbi/bigbedwrite.rs"), "process_val_zoom")
+    emit("bzs_final_bound", [("chrom_length", N)], N, lambda: (sweep_bound(bz_body)))
     cp = [("next_val_is_none", B), ("items_len", N), ("options_items_per_slot", N)]
 
     def cut_cond(body):
